@@ -57,6 +57,10 @@ class Holder:
         new_dict["population"] = population
         new_dict["simulation"] = population.simulation
 
+        # The clone owns its values: writes and deletions must not be shared.
+        new_dict["_memory_storage"] = storage.InMemoryStorage(is_eternal=self._eternal)
+        new_dict["_memory_storage"]._arrays = dict(self._memory_storage._arrays)
+
         return new
 
     def create_disk_storage(self, directory=None, preserve=False):
